@@ -1390,6 +1390,13 @@ impl<R: BufRead> Reader<R> {
             }
             // Decode as many rows as will fit in the current batch
             if self.block_cursor < self.block_data.len() {
+                if self.block_count == 0 {
+                    // All records the block declares were decoded, yet bytes remain: without
+                    // this check nothing is consumed any more and the loop never ends
+                    return Err(AvroError::ParseError(
+                        "Avro block contains more data than its object count declares".to_string(),
+                    ));
+                }
                 let (consumed, records_decoded) = self
                     .decoder
                     .decode_block(&self.block_data[self.block_cursor..], self.block_count)?;
